@@ -26,6 +26,14 @@ func VH_C02_ReactorBackpressure() { vReactorBackpressure(false) }
 //verif: mode=int unwind=16 maxlen=3 tier=thorough
 func VH_C02_ReactorBackpressureChunked() { vReactorBackpressure(true) }
 
+// Only meaningful in the unit that scales iovMax (the number of segments one flush round hands to writev) from 1024
+// to 1: three 1-byte Writes while the socket is full leave three segments pending (ring + two list nodes, write
+// buffer cap 1); then the kernel takes everything it is offered, so the flush needs three chunk-limited rounds in a
+// row without any EAGAIN - the follow-up write task has to re-post itself each time.
+//
+//verif: mode=int unwind=16 maxlen=3 tier=thorough
+func VH_C02_ReactorFollowUpChain() { vReactorBackpressure(true) }
+
 func vReactorBackpressure(smallChunk bool) {
 	et := vNondetBool("et")
 	chunk := 1 << 20
@@ -48,7 +56,11 @@ func vReactorBackpressure(smallChunk bool) {
 	vk.MaxReads, vk.MaxWrites = 2, 8
 	stops := 0
 	w.eng.turnOff = func() { stops++ }
-	how := vPick("reply.how", 3)
+	nhow := 3
+	if vCfg("iov_scaled", 0) == 1 {
+		nhow = 4
+	}
+	how := vPick("reply.how", nhow)
 	cbCalls := 0
 	w.h.onTraffic = func(cc *conn) Action {
 		_, _ = cc.Next(-1)
@@ -63,6 +75,11 @@ func vReactorBackpressure(smallChunk bool) {
 		case 2:
 			err := cc.AsyncWrite(reply, func(Conn, error) error { cbCalls++; return nil })
 			vAssert("C02.reactor.asyncwrite_accepted", err == nil)
+		case 3: // one Write per byte (each lands in a segment of its own once the socket said EAGAIN)
+			for i := 0; i < n; i++ {
+				m, err := cc.Write(reply[i : i+1])
+				vAssert("C02.reactor.bytewise_write_accepts_everything", m == 1 && err == nil)
+			}
 		}
 		return None
 	}
@@ -81,9 +98,13 @@ func vReactorBackpressure(smallChunk bool) {
 		case hi+lo > 0:
 			vk.Batches[call-1] = []unix.EpollEvent{wake}
 		case !c.outboundBuffer.IsEmpty():
-			// the peer reads: the kernel reports the socket writable (LT: only if write interest is armed)
+			// the peer reads: the kernel reports the socket writable. Level-triggered: only if write interest is armed.
+			// Edge-triggered: only as a transition, i.e. if the last write found the socket buffer full; output that
+			// is pending behind a fully successful write with nothing queued would stay unsent forever.
 			if !et {
 				vAssert("C02.reactor.lt_write_interest_armed_while_output_pending", s.Events&0x4 != 0)
+			} else if !s.Full {
+				vAssert("C02.reactor.et_pending_output_always_has_a_follow_up_scheduled", false)
 			}
 			s.Full, s.Writable, s.EagainStreak = false, true, 0
 			vk.Batches[call-1] = []unix.EpollEvent{out}
